@@ -265,25 +265,59 @@ def shared_twice():
     m = _HM(ctx=billiard.get_context('fork'))
     m.start()
     try:
-        h = m.Holder()
-        a = h.child()
-        b = h.child()
-        same = a._id == b._id
-        n0 = m._number_of_objects()
-        a.bump()
-        del a
-        import gc
-        gc.collect()
-        time.sleep(0.1)
-        n1 = m._number_of_objects()
         try:
-            alive = b.bump() == 2
+            h = m.Holder()
+            a = h.child()
+            b = h.child()
+            same = a._id == b._id
+            n0 = m._number_of_objects()
+            a.bump()
+            del a
+            import gc
+            gc.collect()
+            time.sleep(0.1)
+            n1 = m._number_of_objects()
+            alive = b.bump() == 2 and h.child().bump() == 3      # the holder itself is still there too
             err = ''
         except Exception as exc:      # noqa
-            alive, err = False, type(exc).__name__
+            return {'same_object': False, 'objects_before': -1, 'objects_after_drop': -2, 'alive': False,
+                    'err': type(exc).__name__}
         return {'same_object': same, 'objects_before': n0, 'objects_after_drop': n1, 'alive': alive, 'err': err}
     finally:
-        m.shutdown()
+        try:
+            m.shutdown()
+        except Exception:
+            pass
+
+
+def lock_timeouts(m):
+    """acquire() with every shape of blocking / timeout argument on a held lock or exhausted
+    semaphore, compared with the local threading object; a call that does not come back within
+    3 s counts as 'blocked'"""
+    import threading
+    bad = []
+    shapes = [((False,), {}), ((True, 0), {}), ((), {'timeout': 0}), ((True, 0.05), {}), ((), {'timeout': 0.05}),
+              ((False,), {})]
+    for name in ('Lock', 'Semaphore', 'BoundedSemaphore'):
+        remote = getattr(m, name)() if name == 'Lock' else getattr(m, name)(1)
+        local = getattr(threading, name)() if name == 'Lock' else getattr(threading, name)(1)
+        remote.acquire()
+        local.acquire()
+        for args, kw in shapes:
+            out = []
+            th = threading.Thread(target=lambda: out.append(remote.acquire(*args, **kw)), daemon=True)
+            th.start()
+            th.join(3.0)
+            got = out[0] if out else 'blocked'
+            want = local.acquire(*args, **kw)
+            if got != want:
+                bad.append('%s.acquire%r%r on a held one: proxy %r, local object %r' % (name, args, kw, got, want))
+            if got == 'blocked':
+                remote.release()          # let the stuck call finish, then take the unit back
+                th.join(5)
+        remote.release()
+        local.release()
+    return bad
 
 
 def hostile(m):
@@ -352,13 +386,29 @@ def main():
     ctx = billiard.get_context('fork')
     m = ctx.Manager()
     try:
-        n, bad = twin_run(m, rng, 600 if thorough else 150)
+        res['errors'] = []
+
+        def guarded(name, fn, default):
+            # an operation that is valid on the local object must not raise through the proxy
+            try:
+                return fn()
+            except Exception as exc:      # noqa
+                res['errors'].append('%s: %s: %s' % (name, type(exc).__name__, str(exc)[:120]))
+                return default
+        n, bad = guarded('twin', lambda: twin_run(m, rng, 600 if thorough else 150), (0, []))
         res['twin'] = {'ops': n, 'bad': bad[:20]}
-        res['lifetime'] = [lifetime(m, ctx) for _ in range(3 if thorough else 2)]
-        res['concurrent'] = concurrent(m, ctx, 4, 60 if thorough else 25)
+        res['lifetime'] = [x for x in (guarded('lifetime', lambda: lifetime(m, ctx), None)
+                                       for _ in range(3 if thorough else 2)) if x]
+        res['concurrent'] = guarded('concurrent', lambda: concurrent(m, ctx, 4, 60 if thorough else 25),
+                                    {'len': -1, 'distinct': -1, 'dict': -1, 'value': -1, 'expected': 0,
+                                     'per_client_order': False})
         res['key'] = wrong_key(m)
+        res['twin']['bad'] += guarded('lock_timeouts', lambda: lock_timeouts(m), [])
         res['hostile'] = hostile(m)
-        res['lifetime'] += [lifetime_inherited(m, 'spawn')] + ([lifetime_inherited(m, 'forkserver')] if thorough else [])
+        for meth in (('spawn', 'forkserver') if thorough else ('spawn',)):
+            x = guarded('lifetime-' + meth, lambda: lifetime_inherited(m, meth), None)
+            if x:
+                res['lifetime'].append(x)
     finally:
         try:
             m.shutdown()
